@@ -7,7 +7,7 @@
 //@harness p3_vs2m_share_count_256 | bounded(256 shares) | verifier_shares_to_message: 256 shares => Err without panic (the share counter does not overflow)
 //@harness p3_vs2m_share_count_258 | bounded(258 shares) | verifier_shares_to_message: 256 + num_aggregators shares => Err (the share counter does not wrap around to num_aggregators)
 //@harness p3_vs2m_share_len | bounded(2 aggregators, share lengths 0..2) | verifier_shares_to_message: a verifier share of the wrong length => Err before it is added
-//@harness p3_vs2m_decide_all_proofs | bounded(2 proofs) | verifier_shares_to_message: decide() is consulted once per proof; any false/Err => Err; joint rand seed derived from ALL parts in aggregator order
+//@harness p3_vs2m_decide_all_proofs | bounded(2 proofs) | verifier_shares_to_message: decide() is consulted once per proof on the sum of the shares for THAT proof, with independent outcomes per proof; the report is accepted only if EVERY proof is accepted (any false/Err => Err); joint rand seed derived from ALL parts in aggregator order
 //@harness p3_verify_next_seed_compare | complete | verify_next (joint randomness): Err unless ALL 16 seed bytes agree; on agreement the leader's output share is released unchanged
 #[cfg(kani)]
 mod verif_c16_prio3 {
@@ -107,18 +107,23 @@ mod verif_c16_prio3 {
     #[kani::unwind(40)]
     fn p3_vs2m_decide_all_proofs() {
         let mut vdaf = sym_prio3(2, 2, kani::any(), 1);
-        let d: u8 = kani::any();
-        kani::assume(d < 3);
-        unsafe { DECIDE_RESULT = d; DECIDE_CALLS = 0; }
+        // the outcome of decide() is chosen independently for each proof
+        let (d0, d1): (u8, u8) = (kani::any(), kani::any());
+        kani::assume(d0 < 3 && d1 < 3);
+        let d = if d0 == 1 && d1 == 1 { 1 } else { 0 };
+        unsafe { DECIDE_PER_CALL = [d0, d1, 255, 255]; DECIDE_CALLS = 0; }
         let (p0, p1): ([u8; 16], [u8; 16]) = (kani::any(), kani::any());
-        let s0 = Prio3VerifierShare::<Field64, 16> { verifiers: vec![any64(), any64()], joint_rand_part: Some(Seed::from_bytes(p0)) };
-        let s1 = Prio3VerifierShare::<Field64, 16> { verifiers: vec![any64(), any64()], joint_rand_part: Some(Seed::from_bytes(p1)) };
+        let (a0, a1, b0, b1) = (any64(), any64(), any64(), any64());
+        let s0 = Prio3VerifierShare::<Field64, 16> { verifiers: vec![a0, a1], joint_rand_part: Some(Seed::from_bytes(p0)) };
+        let s1 = Prio3VerifierShare::<Field64, 16> { verifiers: vec![b0, b1], joint_rand_part: Some(Seed::from_bytes(p1)) };
         reset_transcript();
         let r = vdaf.verifier_shares_to_message(b"c", &(), [s0, s1]);
         match &r {
             Ok(m) => {
                 assert!(d == 1);
                 assert!(unsafe { DECIDE_CALLS } == 2);                  // every proof's verifier is decided
+                // ... on the SUM of the aggregators' verifier shares for that proof (proof p = elements [p*verifier_len, (p+1)*verifier_len))
+                assert!(unsafe { DECIDE_ARG0[0] } == raw64(a0 + b0) && unsafe { DECIDE_ARG0[1] } == raw64(a1 + b1));
                 assert!(m.joint_rand_seed.is_some());
                 unsafe {
                     assert!(T_INITS == 1 && T_BIND_LEN == 32);
